@@ -184,6 +184,10 @@ def shapes():
     add('ReduceDict', lambda x: _upd(V.ReduceDict('t'), {'k': x, 'j': [x]}))
     add('ReduceAll', lambda x: _all(V.ReduceAll('t'), x))
     add('ReduceFunc', lambda x: V.ReduceFunc(x))
+    add('ReduceNoArgs', lambda x: _set(V.ReduceNoArgs(), extra=x))
+    add('ReduceNoArgsNoState', lambda x: V.ReduceNoArgsNoState(), False)
+    add('DictItemsOnly', lambda x: _setitems(V.DictItemsOnly(), [('k', x), ('j', 1)]))
+    add('SetItemDict', lambda x: _setitems(V.SetItemDict(), [('k', 'v1'), ('j', x if isinstance(x, str) else 'v2')]))
     add('ListSub', lambda x: _set(_ext(V.ListSub(), [x, 'i']), attr=x))
     add('DictSub', lambda x: _set(_upd(V.DictSub(), {'k': x}), attr=1))
     add('SetSub', lambda x: _set(V.SetSub([1, 'a']), attr=x))
@@ -213,6 +217,12 @@ def shapes():
 def _set(o, **kw):
     for k, v in kw.items():
         setattr(o, k, v)
+    return o
+
+
+def _setitems(o, pairs):
+    for k, v in pairs:
+        o[k] = v
     return o
 
 
